@@ -630,6 +630,29 @@ func (g *gen) elabQuant(x *Expr, e *env) (Val, error) {
 	return boolVal("(" + x.Op + " (" + strings.Join(binds, " ") + ") " + inner + ")"), nil
 }
 
+func normSQL(s string) string {
+	return strings.ToUpper(strings.Join(strings.Fields(s), " "))
+}
+
+// stringOrigin: the literal text (or literal head of a Sprintf format) a string term was built from.
+func (g *gen) stringOrigin(term string) (head string, whole bool, known bool) {
+	for lit, name := range g.ctx.strLits {
+		if name == term {
+			return lit, true, true
+		}
+	}
+	if term == "str_empty" {
+		return "", true, true
+	}
+	if f, ok := g.sprintfOrigin[term]; ok {
+		if i := strings.Index(f, "%"); i >= 0 {
+			return f[:i], false, true
+		}
+		return f, true, true
+	}
+	return "", false, false
+}
+
 // elabTrigger elaborates a quantifier pattern. Map membership and map reads are guarded terms
 // (`and`/`ite`), which solvers reject inside patterns; their raw `select` cores are used instead.
 func (g *gen) elabTrigger(t *Expr, e *env) (string, error) {
@@ -785,6 +808,32 @@ func (g *gen) elabCall(x *Expr, e *env) (Val, error) {
 		}
 		es := g.ctx.sortOf(a.GoT.Underlying().(*types.Slice).Elem())
 		return Val{T: "(select " + g.stGet(e.st, g.ctx.elemComp(es)) + " (s.ref " + a.T + "))", S: "(Array Int " + es + ")"}, nil
+	case "sqlstarts":
+		// sqlstarts(q, "DELETE FROM t"): decided at elaboration time from the text q was built from — a string
+		// literal, or the literal head (up to the first %) of a constant fmt.Sprintf format. Whitespace is
+		// normalised and case ignored. When q's origin is unknown the answer is an unconstrained boolean.
+		if len(x.Args) != 2 || x.Args[1].Op != "str" {
+			return Val{}, fmt.Errorf("sqlstarts(q, \"literal\")")
+		}
+		q, err := g.elab1(x.Args[0], e)
+		if err != nil {
+			return Val{}, err
+		}
+		want := normSQL(x.Args[1].S)
+		head, whole, known := g.stringOrigin(q.T)
+		if !known {
+			g.ctx.note("sqlstarts on a string of unknown origin (unconstrained)")
+			return boolVal(g.ctx.fresh("sqlstarts", "Bool")), nil
+		}
+		h := normSQL(head)
+		switch {
+		case strings.HasPrefix(h, want):
+			return boolVal("true"), nil
+		case whole || len(h) >= len(want) || !strings.HasPrefix(want, h):
+			return boolVal("false"), nil
+		}
+		g.ctx.note("sqlstarts undecided by the literal head of a format (unconstrained)")
+		return boolVal(g.ctx.fresh("sqlstarts", "Bool")), nil
 	case "f2i":
 		as, err := args()
 		if err != nil {
